@@ -68,6 +68,9 @@ fn build_fixture() -> Fixture {
 	write(&root.join("explicit/my.ignore"), "file-ign.txt\n");
 	write(&root.join("explicit/my.filters"), "*.kept\n");
 	std::fs::create_dir_all(root.join("home")).expect("mkdir");
+	for f in ["file-ign.txt", "pat-ign.txt", "free.txt"] {
+		write(&root.join("shared").join(f), "x");
+	}
 	for f in ["vcs-local.txt", "generic-local.txt", "vcs-global.txt", "app-global.txt", "mod.pyc", "pat-ign.txt", "file-ign.txt", "free.txt", "a.keep", "a.kept", "a.rs"] {
 		write(&proj.join(f), "x");
 	}
@@ -82,7 +85,7 @@ fn build_fixture() -> Fixture {
 
 fn argv(fx: &Fixture, flags: &[&str], opts: &[Opt]) -> Vec<String> {
 	let p = fx.proj.display().to_string();
-	let mut v: Vec<String> = vec!["watchexec".into(), "--project-origin".into(), p.clone(), "-w".into(), p.clone(), "--workdir".into(), p];
+	let mut v: Vec<String> = vec!["watchexec".into(), "--project-origin".into(), p.clone(), "-w".into(), p.clone(), "-w".into(), fx.root.join("shared").display().to_string(), "--workdir".into(), p];
 	v.extend(flags.iter().map(|s| (*s).to_string()));
 	for o in opts {
 		match o {
@@ -112,7 +115,7 @@ fn event(fx: &Fixture, file: &str, kind: Kind) -> Event {
 				Kind::Modify => FileEventKind::Modify(ModifyKind::Data(DataChange::Content)),
 				Kind::Create => FileEventKind::Create(CreateKind::File),
 			}),
-			Tag::Path { path: fx.proj.join(file), file_type: Some(FileType::File) },
+			Tag::Path { path: if let Some(f) = file.strip_prefix("../") { fx.root.join(f) } else { fx.proj.join(file) }, file_type: Some(FileType::File) },
 		],
 		metadata: Default::default(),
 	}
@@ -149,10 +152,31 @@ fn expected(file: &str, kind: Kind, flags: &[&str], opts: &[Opt]) -> bool {
 	true
 }
 
-const PROBES: [&str; 11] = ["vcs-local.txt", "generic-local.txt", "vcs-global.txt", "app-global.txt", "mod.pyc", "pat-ign.txt", "file-ign.txt", "free.txt", "a.keep", "a.kept", "a.rs"];
+/// probes starting with "../" lie outside the project origin (in a second watched
+/// directory); for them only clause (a) is checked, differentially: the verdict under any
+/// flag mix equals the verdict of the same explicit options without flags
+const PROBES: [&str; 14] = [
+	"vcs-local.txt",
+	"generic-local.txt",
+	"vcs-global.txt",
+	"app-global.txt",
+	"mod.pyc",
+	"pat-ign.txt",
+	"file-ign.txt",
+	"free.txt",
+	"a.keep",
+	"a.kept",
+	"a.rs",
+	"../shared/file-ign.txt",
+	"../shared/pat-ign.txt",
+	"../shared/free.txt",
+];
 
 fn owner(file: &str) -> &'static str {
 	match file {
+		"../shared/file-ign.txt" => "--ignore-file",
+		"../shared/pat-ign.txt" => "--ignore",
+		"../shared/free.txt" => "no-source",
 		"pat-ign.txt" => "--ignore",
 		"file-ign.txt" => "--ignore-file",
 		"a.keep" => "--filter",
@@ -212,7 +236,17 @@ pub fn replay(input: &Value) -> i32 {
 	let opts: Vec<Opt> = input["opts"].as_array().map(|a| a.iter().filter_map(|x| OPTS.iter().find(|o| format!("{o:?}") == x.as_str().unwrap_or("")).copied()).collect()).unwrap_or_default();
 	let flags = flag_set(mask);
 	println!("argv: {:?}", argv(&fx, &flags, &opts));
-	let res = eval_config(&fx, &rt, &flags, &opts);
+	let base = eval_config(&fx, &rt, &[], &opts);
+	let res = eval_config(&fx, &rt, &flags, &opts).map(|rows| {
+		rows.into_iter()
+			.enumerate()
+			.map(|(i, (f, k, got, want))| {
+				// outside-origin probes: differential against the no-flags verdict
+				let want = if f.starts_with("../") { base.as_ref().map_or(want, |b| b[i].2) } else { want };
+				(f, k, got, want)
+			})
+			.collect::<Vec<_>>()
+	});
 	let _ = std::fs::remove_dir_all(&fx.root);
 	match res {
 		Err(e) => {
@@ -277,6 +311,8 @@ pub fn run(tier: Tier, seed: u64) -> i32 {
 			};
 			for (i, (f, k, got, want)) in rows.iter().enumerate() {
 				evals += 1;
+				let base_got = base[i].2;
+				let want = if f.starts_with("../") { &base_got } else { want };
 				if *got != base[i].2 {
 					let mut h = std::collections::hash_map::DefaultHasher::new();
 					(f, format!("{k:?}"), got, opt_name(&opts)).hash(&mut h);
